@@ -58,6 +58,12 @@ def run_product(case):
     if case["seed"] % 3 == 1:  # an application that runs with debug logging switched on
         logging.getLogger("ceos_alos2").setLevel(logging.DEBUG)
         logging.getLogger().setLevel(logging.DEBUG)
+    # the CPUs this process may use (a cpuset / taskset / container limit): 1, 2, 3 or 4 -- fewer than the product has image files, or more
+    all_cpus = os.sched_getaffinity(0)
+    n_cpu = 1 + (case["seed"] // 2) % 4
+    if case["seed"] % 3 != 0 and len(all_cpus) >= n_cpu:
+        os.sched_setaffinity(0, set(sorted(all_cpus)[:n_cpu]))
+        out["cpus"] = n_cpu
     try:
         for attempt in (1, 2):  # the same product opened twice in one process: nothing may stick between calls
             tracefs.take_log()
@@ -112,6 +118,7 @@ def run_product(case):
             elif paths != first_paths:
                 out["bad"].append(("second-open-differs", f"node set differs between two opens: {sorted(set(paths) ^ set(first_paths))[:4]}"))
     finally:
+        os.sched_setaffinity(0, all_cpus)
         logging.getLogger("ceos_alos2").setLevel(lv[0])
         logging.getLogger().setLevel(lv[1])
         imgrun.drop_from_fs(url, case["fs"])
@@ -162,7 +169,7 @@ def body(chk):
             if key in seen:
                 continue
             seen.add(key)
-            chk.violation(f"assembly:{key}", f"[{c['names']}, nmap={c['nmap']}, {c['fs']}] {msg}", {"case": c})
+            chk.violation(f"assembly:{key}", f"[{c['names']}, nmap={c['nmap']}, {c['fs']}{', %d usable CPUs' % res['cpus'] if res.get('cpus') else ''}] {msg}", {"case": c})
     chk.traces(len(results))
     chk.sample({"images": cases[7]["names"], "map_projection": cases[7]["nmap"], "metadata_groups": cases[7]["meta"], "problems": results[7]["bad"][:2]})
     chk.assumptions += ["scan suffixes B<n> / F<n> map to _scan<n>; products never mix both methods for one polarisation and number",
